@@ -6,7 +6,7 @@ CONSTANTS
   MaxTok = 1
   MaxIdle = 0
   Z = 3
-  StateSet = {"ACTIVE", "LEAVING", "PENDING", "JOINING"}
+  StateSet = {"ACTIVE", "LEAVING", "PENDING"}
   HbSet = {"edge", "stale"}
   RFMax = 3
   Canon = 2
